@@ -2,11 +2,18 @@ package protocol
 
 import (
 	"context"
+	"errors"
 	"fmt"
 
 	"github.com/hujm2023/go-sms-protocol/datacoding"
 	"github.com/hujm2023/go-sms-protocol/datacoding/gsm7encoding"
 )
+
+// maxLongSmsParts is the largest number of parts the one-octet total/sequence counters of the header can express.
+const maxLongSmsParts = 255
+
+// ErrTooManyParts is returned when a message would need more than 255 parts.
+var ErrTooManyParts = errors.New("content needs more than 255 concatenated parts")
 
 const (
 	minLongSmsHeaderLength = 6 // Additional header length for long SMS
@@ -81,7 +88,11 @@ func EncodeCMPPContentAndSplit(ctx context.Context, content string, msgFmt datac
 		return [][]byte{encodedData}, actualMsgFmt, nil
 	}
 
-	return splitWithUDHI(encodedData, perMsgLength, frameKey), actualMsgFmt, nil
+	contents, err = splitWithUDHI(encodedData, perMsgLength, frameKey)
+	if err != nil {
+		return nil, 0, err
+	}
+	return contents, actualMsgFmt, nil
 }
 
 // DecodeCMPPCContent decodes CMPP content using the provided dataCoding.
@@ -144,7 +155,11 @@ func EncodeSMPPContentAndSplit(ctx context.Context, content string, msgFmt datac
 		return [][]byte{encodedData}, actualMsgFmt, nil
 	}
 
-	return splitWithUDHI(encodedData, perMsgLength, frameKey), actualMsgFmt, nil
+	contents, err = splitWithUDHI(encodedData, perMsgLength, frameKey)
+	if err != nil {
+		return nil, 0, err
+	}
+	return contents, actualMsgFmt, nil
 }
 
 // DecodeSMPPCContent decodes SMPP content using the provided dataCoding.
@@ -193,6 +208,9 @@ func encodeAndSplitGSM7Packed(content string, frameKey byte) ([][]byte, datacodi
 	// cutting at this point would split these two bytes.
 	// To avoid this scenario, the preceding part should pack one byte less, ensuring that 0x1b is placed within the next byte.
 	ends := cutPoints(contentBytes, datacoding.SplitBy153, gsm7Boundary)
+	if len(ends) > maxLongSmsParts {
+		return nil, 0, ErrTooManyParts
+	}
 	res := make([][]byte, 0, len(ends))
 	begin := 0
 	for idx, end := range ends {
@@ -248,9 +266,12 @@ func cutPoints(data []byte, perMsgLength int, boundary boundaryFunc) []int {
 }
 
 // splitWithUDHI splits the long message according to perMsgLength and adds a 6-byte header for concatenated SMS.
-func splitWithUDHI(data []byte, perMsgLength int, frameKey byte) [][]byte {
+func splitWithUDHI(data []byte, perMsgLength int, frameKey byte) ([][]byte, error) {
 	ends := cutPoints(data, perMsgLength, nil)
 	msgCount := len(ends)
+	if msgCount > maxLongSmsParts {
+		return nil, ErrTooManyParts
+	}
 	contentBytes := make([][]byte, 0, msgCount)
 	begin := 0
 	for idx, end := range ends {
@@ -270,7 +291,7 @@ func splitWithUDHI(data []byte, perMsgLength int, frameKey byte) [][]byte {
 		begin = end
 	}
 
-	return contentBytes
+	return contentBytes, nil
 }
 
 // ceil: rounding up to the nearest integer.
